@@ -6,7 +6,7 @@
 
    Adding a process-wide cache / singleton / mutable class attribute, importing an entropy
    source or changing what the repository hands out changes the generated lists and breaks an
-   obligation; the check then runs the isolation search with the thorough budget.  If the new
+   obligation; the check then runs the isolation search with an extended budget.  If the new
    state is harmless the review is recorded by extending the list here. *)
 From Coq Require Import List String Bool Ascii.
 Import ListNotations.
